@@ -14,7 +14,7 @@ LEVEL = 'exploration'
 RULE = ('case = (conditional instruction word, (cond, NZCV) pair, random valid state); words: solved members of '
         'every ARM decoder path with the cond field forced to 0..13, every Thumb-16 word and every Thumb-32 decoder '
         'path inside an IT block (last slot, and for a third of the cases any other slot), B T1/T3 with every cond; failing '
-        'pairs for the no-op monitor, passing pairs for AL-equivalence; plus the exhaustive truth table (cond x NZCV) through '
+        'pairs for the no-op monitor, passing pairs for AL-equivalence; every 32-bit Thumb word also outside an IT block against the same word in the last slot of an IT AL block (no condition at all outside a block, whatever the flags and GE hold); plus the exhaustive truth table (cond x NZCV) through '
         'the real condition_passed() for the ARM cond field, B T1, B T3 and EVERY legal ITSTATE value (cond:mask, all 15 '
         'non-zero mask nibbles). plus two-step sequences: an exception return executed outside an IT block lands inside a Thumb IT block (every ITSTATE value) and the first instruction there is judged (fail: only PC and ITSTATE advance; pass: executes without setting flags). non-trivial = the same word with a passing '
         'condition changes state beyond the PC; distinct = (set, path id or word>>4, abstract execute class, cond)')
@@ -127,10 +127,10 @@ class Mon:
 
         event_pending = rng.random() < 0.3        # an event signalled from outside is pending (what WFE consumes)
 
-        def go(c, nzcv):
+        def go(c, nzcv, pos=None):
             r = random.Random(seed)
             w = setcond(word, c) if kind == 'arm' or setcond is not None else word
-            d = scen.prepare(ctx, r, kind, w, mode=mode, itpos=itpos, ns=ns, nzcv=nzcv,
+            d = scen.prepare(ctx, r, kind, w, mode=mode, itpos=pos or itpos, ns=ns, nzcv=nzcv,
                              itcond=None if (kind == 'arm' or setcond is not None) else c)
             if event_pending:
                 ctx.cpu.registers.event_register = True
@@ -261,6 +261,24 @@ class Mon:
             if ch or k1 != k2:
                 self.report('C05|passed-cond-differs-from-AL|%s|%s' % (cls1, ','.join(sorted({categ(x) for x in ch}))[:60]),
                             dict(d1, cond=cond, nzcv=nz, differing=sorted(ch)), dict(d1, cond=cond, nzcv=nz))
+            elif kind == 't32' and setcond is None and itpos == 'last':
+                # ... and OUTSIDE an IT block a Thumb instruction has no condition at all: the same 32-bit word, same state,
+                # ITSTATE = 0, must do exactly what it does in the last slot of an IT AL block - whatever N, Z, C, V, Q and GE hold
+                d3, pre3, post3, k3, cls3 = go(14, nz, pos='out')
+                if cls3 != cls2 or self.code_data_reads:
+                    self.bump('outside_it_skipped')
+                    return
+                a, b = dict(post2), dict(post3)
+                for s_ in (a, b):
+                    s_.pop('hsr', None)
+                    s_['cpsr'] &= ~0x0600FC00
+                    for sp in ('spsr_und', 'spsr_svc', 'spsr_abt', 'spsr_hyp', 'spsr_mon'):
+                        s_[sp] &= ~0x0600FC00
+                ch3 = set(observe.diff(a, b))
+                self.bump('outside_it_judged')
+                if ch3 or k3 != k2:
+                    self.report('C05|outside-it-block-differs-from-unconditional|%s|%s' % (cls2, ','.join(sorted({categ(x) for x in ch3}))[:60]),
+                                dict(d3, nzcv=nz, differing=sorted(ch3)), dict(d3, nzcv=nz))
 
 
 def it_advance_ref(it):
